@@ -8,4 +8,4 @@ Separate Extraction
   Model.init Model.add Model.after Model.get_offset Model.contains Model.vertices Model.is_mutable Model.add_f
   Static.struct_layout Static.s_get_offset Static.s_contains Static.s_total Static.s_set_mutable Static.s_reset Static.s_is_mutable
   RawLife.create_raw RawLife.destroy_raw RawLife.create_raw_idx
-  Gen_List.pvGetOffset Gen_List.vertexCount Gen_Vertices.maxCodeParam Gen_Vertices.maxColumnCount Model.lookup_gen.
+  Gen_List.pvGetOffset Gen_List.vertexCount Gen_Vertices.maxCodeParam Gen_Vertices.maxColumnCount Model.lookup_gen Gen_List.Contains Model.contains_gen.
